@@ -91,6 +91,27 @@ Lemma link_init_calls : C19_Gen.init_calls =
    "os.OpenFile"; "return"; "fileInfo.Size"; "fs.CloseOnExec"; "return"]%string.
 Proof. reflexivity. Qed.
 
+(* one record = one slice: every front-end writer hands its whole line to the io.Writer in exactly one call,
+   and RotateLogger.Write queues what it is given with exactly one channel send (after copying it) *)
+Definition hands_over (l : list string) : nat :=
+  (count_occ string_dec l "fmt.Fprint"%string + count_occ string_dec l "writer.Write"%string +
+   count_occ string_dec l "io.WriteString"%string + count_occ string_dec l "fmt.Fprintf"%string +
+   count_occ string_dec l "fmt.Fprintln"%string)%nat.
+
+Lemma link_plain_text_one_write : hands_over C19_Gen.write_plain_text_calls = 1%nat.
+Proof. reflexivity. Qed.
+
+Lemma link_plain_value_one_write : hands_over C19_Gen.write_plain_value_calls = 1%nat.
+Proof. reflexivity. Qed.
+
+Lemma link_json_one_write : hands_over C19_Gen.write_json_calls = 1%nat.
+Proof. reflexivity. Qed.
+
+Lemma link_rotate_write_one_send :
+  count_occ string_dec C19_Gen.rotate_write_calls "send:l.channel"%string = 1%nat /\
+  count_occ string_dec C19_Gen.rotate_write_calls "copy"%string = 1%nat.
+Proof. split; reflexivity. Qed.
+
 (* ---- soundness of the executable tests used by Exec.spec_ok *)
 Lemma is_matched_sound c n :
   is_matched c n = true <-> exists mid, n = bpre c ++ mid ++ bsuf c ++ gz_opt c.
